@@ -10,4 +10,7 @@ CONSTANTS
   AllowStop = TRUE
   AllowFault = TRUE
   AliveCheck = TRUE
+  PhaseOn = {1, 2, 3, 4, 5}
+  AllowCtrlC = FALSE
+  MaxNFE = 1
 CHECK_DEADLOCK FALSE
